@@ -1097,6 +1097,9 @@ func (c *SpecCtx) applySpecFunc(sf *SpecFunc, recv *SV, args []ast.Expr) *SV {
 	if ex.specDepth > 40 {
 		c.fail("spec function expansion too deep (recursive without 'rec'?) in %s", sf.Name)
 	}
+	if id, ok := sf.Body.(*ast.Ident); ok && id.Name == "uninterpreted" {
+		return c.applyOpaque(sf, defCtx, names, recv)
+	}
 	if sf.BVOnly && ex.env.mode != ModeBV || ex.spec != nil && ex.spec.Opaque[sf.Name] {
 		return c.applyOpaque(sf, defCtx, names, recv)
 	}
